@@ -35,7 +35,8 @@ Definition ds_arrays (ds : dataset) : tuple :=
   ds_coords ds ++ ds_data ds ++ match ds_weights ds with Some w => w | None => [] end.
 
 (** ** metrics (scikit-learn, single output, optional sample weights) *)
-Fixpoint qsum (l : list Q) : Q := match l with [] => 0 | x :: t => x + qsum t end.
+(** [Qred] keeps the running sum in lowest terms (value unchanged: [Qred q == q]) *)
+Fixpoint qsum (l : list Q) : Q := match l with [] => 0 | x :: t => Qred (x + qsum t) end.
 
 Fixpoint map2 {A B C} (f : A -> B -> C) (l1 : list A) (l2 : list B) : list C :=
   match l1, l2 with
@@ -52,7 +53,7 @@ Definition wts (w : option (list Q)) (n : nat) : list Q :=
 
 Definition sqerr (y yhat : list Q) : list Q := map2 (fun a b => (a - b) * (a - b)) y yhat.
 Definition abserr (y yhat : list Q) : list Q := map2 (fun a b => Qabs (a - b)) y yhat.
-Definition wmean (w y : list Q) : Q := wsum w y / qsum w.
+Definition wmean (w y : list Q) : Q := Qred (wsum w y / qsum w).
 
 Definition r2_num (w y yhat : list Q) : Q := wsum w (sqerr y yhat).
 Definition r2_den (w y : list Q) : Q := wsum w (map (fun a => (a - wmean w y) * (a - wmean w y)) y).
